@@ -255,8 +255,12 @@ Definition rc_of (m : mem) (r : repr) : N :=
   end.
 Definition live_blocks (m : mem) : N := len (filter live (heap m)).
 
-Definition mem0 (st : list (list N)) (orc : N -> N -> bool) : mem :=
-  {| heap := []; statics := st; orc := orc; nreq := 0; log := [] |}.
+(* the empty world of one thread among others: [ex] is what the foreign references add to each count it reads *)
+Definition mem0x (st : list (list N)) (orc : N -> N -> bool) (ex : N -> N) : mem :=
+  {| heap := []; statics := st; orc := orc; nreq := 0; log := []; ext := ex |}.
+Definition world0x (st : list (list N)) (orc : N -> N -> bool) (ex : N -> N) : world := {| pool := []; wmem := mem0x st orc ex |}.
+(* the sequential empty world: nobody else *)
+Definition mem0 (st : list (list N)) (orc : N -> N -> bool) : mem := mem0x st orc (fun _ => 0).
 Definition world0 (st : list (list N)) (orc : N -> N -> bool) : world := {| pool := []; wmem := mem0 st orc |}.
 
 (* the oracle the harness uses: refuse the listed request numbers and anything above [limit] *)
